@@ -127,7 +127,7 @@ mutual
 end
 
 /-- a read is an upsert into an empty target (the read walk is the same `enter` loop) -/
-def readOut (ks : List Schema) (body : List Data) : List Data := editKids true ks body (emptyBody ks)
+def readOut (ks : List Schema) (body : List Data) : List Data := editKids false ks body (emptyBody ks)
 
 /-! ### the pinned tree: only the innermost choice of the written node was looked at, so an outer
      choice was cleared only when a *direct* child of its case was written -/
